@@ -29,12 +29,15 @@ Print Assumptions C15_legacy_delivery.
    number of parts carried by non-self-contained segments, zero-length parts included (the code appends them and nothing
    else happens); any mixture, any number: the same frames are delivered in the same order, the accumulator is empty at the
    end and the state is unchanged.  By induction over the segmentation derivation; no bound on counts or sizes.
-   (0 < fc_hlen: the header decoder needs at least one byte; it is 9 in both instances.) *)
+   (0 < fc_hlen: the header decoder needs at least one byte; it is 9 in both instances.)
+   [calm_modern]: no frame of the list is a STARTUP (towards the server) / a fatal ERROR (towards the client).  READY and
+   AUTHENTICATE are ordinary frames for a client that has already switched, so envelopes that are a bare 9-byte header with
+   an empty body (OPTIONS towards the server, READY towards the client) are covered in every position of a segment. *)
 Theorem C15_modern_delivery :
   forall (F H C : Type) (fc : fcodec F H C) (sc : scodec C) (r : role) (ce c : C)
          (fs : list F) (envs : list (list Z)) (nfs : list F) (ss : list wire_seg) (bss : list (list Z)) (st : conn C),
   0 < fc_hlen fc ->
-  enveloped fc ce c fs envs nfs -> Forall (calm fc r) nfs ->
+  enveloped fc ce c fs envs nfs -> Forall (calm_modern fc r) nfs ->
   segmentation envs ss -> seg_encoded sc c ss bss ->
   c_modern st = true -> c_comp st = c -> c_target st = 0 -> c_acc st = [] ->
   rx_all fc sc r st (concat bss) = (st, nfs, RxOk).
@@ -45,7 +48,7 @@ Print Assumptions C15_modern_delivery.
    with LZ4 the payload compressor's contract (C08) is asked of each payload *)
 Theorem C15_modern_delivery_raw :
   forall (r : role) (c : compr) (lz4p : Segment.compressor) (rfs : list RawFrame) (ss : list wire_seg) (st : conn compr),
-  Forall raw_ok rfs -> Forall (calm raw_fc r) rfs ->
+  Forall raw_ok rfs -> Forall (calm_modern raw_fc r) rfs ->
   segmentation (map raw_env rfs) ss -> Forall (fun w => payload_ok lz4p c (ws_payload w)) ss ->
   c_modern st = true -> c_comp st = c -> c_target st = 0 -> c_acc st = [] ->
   exists wire, encode_wire (seg_sc lz4p) c ss = Ok wire /\
@@ -59,13 +62,29 @@ Print Assumptions C15_modern_delivery_raw.
 Theorem C15_modern_delivery_frames :
   forall (r : role) (c : compr) (lz4p : Segment.compressor) (lz4b snb : Frame.compressor)
          (fs : list Frame) (envs : list (list Z)) (nfs : list Frame) (ss : list wire_seg) (st : conn compr),
-  envelopes_ok the_msg_codec msg_ok norm_message fs envs nfs -> Forall (calm (cfc lz4b snb) r) nfs ->
+  envelopes_ok the_msg_codec msg_ok norm_message fs envs nfs -> Forall (calm_modern (cfc lz4b snb) r) nfs ->
   segmentation envs ss -> Forall (fun w => payload_ok lz4p c (ws_payload w)) ss ->
   c_modern st = true -> c_comp st = c -> c_target st = 0 -> c_acc st = [] ->
   exists wire, encode_wire (seg_sc lz4p) c ss = Ok wire /\
                rx_all (cfc lz4b snb) (seg_sc lz4p) r st wire = (st, nfs, RxOk).
 Proof. exact modern_delivery_concrete. Qed.
 Print Assumptions C15_modern_delivery_frames.
+
+(* ONE self-contained segment whose payload ENDS with an envelope that is a bare header (empty body: OPTIONS, READY), after
+   any number of whole envelopes - none at all included (rfs = []: the segment holds nothing but the 9 header bytes):
+   every envelope is delivered, in order, the bare header last.  readSelfContainedSegment loops while ANY byte of the
+   payload is unread (Conn.sc_more: remaining > 0), not while more than a header's worth is unread. *)
+Theorem C15_header_only_tail_delivered :
+  forall (r : role) (c : compr) (lz4p : Segment.compressor) (rfs : list RawFrame) (rf : RawFrame) (st : conn compr),
+  Forall raw_ok (rfs ++ [rf]) -> Forall (calm_modern raw_fc r) (rfs ++ [rf]) -> olist (rf_Body rf) = [] ->
+  let p := concat (map raw_env rfs) ++ hdr_bytes (rf_Header rf) in
+  zlen p <= max_payload -> payload_ok lz4p c p ->
+  c_modern st = true -> c_comp st = c -> c_target st = 0 -> c_acc st = [] ->
+  zlen (hdr_bytes (rf_Header rf)) = 9 /\
+  exists wire, encode_wire (seg_sc lz4p) c [WSelf p] = Ok wire /\
+               rx_all raw_fc (seg_sc lz4p) r st wire = (st, rfs ++ [rf], RxOk).
+Proof. exact header_only_tail_delivered. Qed.
+Print Assumptions C15_header_only_tail_delivered.
 
 (* a header that does not decode (from the first 9 accumulated bytes) aborts the connection: what the code does *)
 Theorem C15_bad_header_aborts :
@@ -218,6 +237,32 @@ Proof. exact (conj ex5h_segmentation ex_header_cut). Qed.
 Example C15_ex_header_cut_shape :
   map (fun w => (ws_self w, zlen (ws_payload w))) ex5h_segments = [(false, 5); (false, 0); (false, 3); (false, 21); (false, 0); (true, 9)].
 Proof. vm_compute. reflexivity. Qed.
+
+(* (2) v5: bare headers (empty bodies) at the end of self-contained segments, in every position, and alone.
+   Towards the server: [QUERY OPTIONS] [OPTIONS] [OPTIONS OPTIONS QUERY OPTIONS] *)
+Example C15_ex_header_only_server :
+  segmentation (map raw_env ex5t_frames) ex5t_segments /\
+  exists wire, encode_wire ex_sc CNone ex5t_segments = Ok wire /\
+               rx_all raw_fc ex_sc Server modern0 wire = (modern0, ex5t_frames, RxOk).
+Proof. exact (conj ex5t_segmentation ex_header_only_server). Qed.
+Example C15_ex_header_only_server_shape :
+  map (fun w => (ws_self w, zlen (ws_payload w))) ex5t_segments = [(true, 38); (true, 9); (true, 41)] /\
+  map (fun rf => zlen (raw_env rf)) ex5t_frames = [29; 9; 9; 9; 9; 14; 9].
+Proof. vm_compute. split; reflexivity. Qed.
+(* Towards a client already in modern layout: [RESULT READY] [READY]; READY is not [calm] (it switches a legacy client) but
+   it is [calm_modern] *)
+Example C15_ex_header_only_client :
+  (exists wire, encode_wire ex_sc CNone ex5c_segments = Ok wire /\
+                rx_all raw_fc ex_sc Client modern0 wire = (modern0, ex5c_frames, RxOk)) /\
+  ~ calm raw_fc Client (ex5_ready 2).
+Proof. exact ex_header_only_client. Qed.
+(* C15_header_only_tail_delivered is not vacuous: QUERY QUERY OPTIONS in one segment; OPTIONS alone in a segment *)
+Example C15_ex_header_only_tail :
+  (exists wire, encode_wire ex_sc CNone [WSelf (concat (map raw_env [ex5_q1; ex5_q3]) ++ hdr_bytes (rf_Header (ex5_o 9)))] = Ok wire /\
+                rx_all raw_fc ex_sc Server modern0 wire = (modern0, [ex5_q1; ex5_q3; ex5_o 9], RxOk)) /\
+  (exists wire, encode_wire ex_sc CNone [WSelf (hdr_bytes (rf_Header (ex5_o 9)))] = Ok wire /\
+                rx_all raw_fc ex_sc Server modern0 wire = (modern0, [ex5_o 9], RxOk)).
+Proof. exact ex_header_only_tail. Qed.
 
 (* (3) v5: the server writes a RESULT on which the compression flag had been set *)
 Example C15_ex_tx_modern :
